@@ -246,7 +246,7 @@ def Good (g0 : Nat) (orig : T) : Res → Prop
   | .stuck => False
   | .inserted t' => Lam t' ∧ t'.o.key = orig.o.key ∧ ∀ g, cntT g t' = cntT g orig + (if g0 = g then 1 else 0)
   | .merged t' _ => Lam t' ∧ t'.o.key = orig.o.key ∧ ∀ g, cntT g t' = cntT g orig
-  | .failed t' => t'.o.key = orig.o.key ∧ ∀ g, cntT g t' = cntT g orig
+  | .failed t' => Lam t' ∧ t'.o.key = orig.o.key ∧ ∀ g, cntT g t' = cntT g orig
 
 theorem Good.wrap {g0 : Nat} {co : IObj} {before rest : List T} {c : T} {r : Res}
     (h : Good g0 c r) (hL : Lam (.node co (before ++ c :: rest))) :
@@ -285,8 +285,8 @@ theorem Good.wrap {g0 : Nat} {co : IObj} {before rest : List T} {c : T} {r : Res
     refine ⟨key c' hl' ho, rfl, fun g => ?_⟩
     simp [hc g]
   | failed c' =>
-    obtain ⟨ho, hc⟩ := h
-    refine ⟨rfl, fun g => ?_⟩
+    obtain ⟨hl', ho, hc⟩ := h
+    refine ⟨key c' hl' ho, rfl, fun g => ?_⟩
     simp [hc g]
 
 
@@ -301,6 +301,24 @@ theorem cntL_putback (g : Nat) : ∀ (taken lst : List T), cntL g (putback lst t
       rw [← cntL_append, List.takeWhile_append_dropWhile]
     omega
 
+theorem putback_perm : ∀ (taken lst : List T), (putback lst taken).Perm (lst ++ taken) := by
+  intro taken
+  induction taken with
+  | nil => intro lst; simp [putback]
+  | cons c cs ih =>
+    intro lst
+    simp only [putback]
+    have h1 := ih (c :: lst.dropWhile (fun x => firstLt x.o.ckey c.o.ckey))
+    have h2 : (lst.takeWhile (fun x => firstLt x.o.ckey c.o.ckey) ++ (c :: lst.dropWhile (fun x => firstLt x.o.ckey c.o.ckey) ++ cs)).Perm
+        (lst ++ c :: cs) := by
+      have e : lst ++ c :: cs = lst.takeWhile (fun x => firstLt x.o.ckey c.o.ckey) ++ (lst.dropWhile (fun x => firstLt x.o.ckey c.o.ckey) ++ c :: cs) := by
+        rw [← List.append_assoc, List.takeWhile_append_dropWhile]
+      rw [e]
+      apply List.Perm.append_left
+      simp only [List.cons_append]
+      exact (List.perm_middle).symm
+    exact (List.Perm.append_left _ h1).trans h2
+
 /-- the loop invariant; `IH` is the statement for the (smaller) children -/
 theorem insLoop_good (N : Nat)
     (IH : ∀ c : T, size c < N → ∀ obj : IObj, Lam c → sub obj.key c.o.key → Good obj.gp c (ins obj c))
@@ -311,12 +329,13 @@ theorem insLoop_good (N : Nat)
       (∀ c ∈ before, dj k0 c.o.key) →
       (∀ c ∈ taken, sub c.o.key k0 ∧ c.o.key ≠ 0) →
       (before ++ rest).Pairwise DJ → taken.Pairwise DJ → (∀ d ∈ taken, ∀ c ∈ rest, DJ d c) →
+      (∀ a ∈ before, ∀ d ∈ taken, DJ a d) →
       (∀ c ∈ before ++ taken ++ rest, Lam c ∧ sub c.o.key co.key ∧ size c < N) →
       Good g0 (.node co kids) (insLoop obj co before taken putp rest) := by
   intro rest
   induction rest with
   | nil =>
-    intro before taken putp obj hg hk _ hcnt hbef htak hpw hpt _ hall
+    intro before taken putp obj hg hk _ hcnt hbef htak hpw hpt _ _ hall
     simp only [insLoop]
     refine ⟨.mk ?_ ?_ ?_, rfl, fun g => ?_⟩
     · intro c hc
@@ -340,7 +359,7 @@ theorem insLoop_good (N : Nat)
       rw [cntT_node, cntL_take_drop, cntT_node, cntT_node, hg]
       split <;> omega
   | cons c rest ih =>
-    intro before taken putp obj hg hk hshape hcnt hbef htak hpw hpt hcross hall
+    intro before taken putp obj hg hk hshape hcnt hbef htak hpw hpt hcross hbt hall
     cases c with
     | node ko kk =>
     simp only [insLoop]
@@ -389,7 +408,45 @@ theorem insLoop_good (N : Nat)
       rw [hkids]; exact this
     | fail =>
       simp only []
-      refine ⟨rfl, fun g => ?_⟩
+      -- the kids of the result are a permutation of (before ++ c :: rest) ++ taken
+      have hperm : ∀ l : List T,
+          l = (match putp with
+               | some i => (before ++ T.node ko kk :: rest).take i ++ putback ((before ++ T.node ko kk :: rest).drop i) taken
+               | none => putback (before ++ T.node ko kk :: rest) taken) →
+          l.Perm ((before ++ T.node ko kk :: rest) ++ taken) := by
+        intro l hl
+        subst hl
+        cases putp with
+        | none => exact putback_perm taken _
+        | some i =>
+          have := (List.Perm.append_left ((before ++ T.node ko kk :: rest).take i) (putback_perm taken ((before ++ T.node ko kk :: rest).drop i)))
+          rw [← List.append_assoc, List.take_append_drop] at this
+          exact this
+      have hsrc : ((before ++ T.node ko kk :: rest) ++ taken).Pairwise DJ := by
+        refine List.pairwise_append.mpr ⟨hpw, hpt, ?_⟩
+        intro a ha d hd
+        rcases List.mem_append.mp ha with ha | ha
+        · exact hbt a ha d hd
+        · exact DJ_symm (hcross d hd a ha)
+      refine ⟨?_, rfl, fun g => ?_⟩
+      · have hp' := hperm _ rfl
+        refine .mk ?_ ((hp'.pairwise_iff (fun h => DJ_symm h)).mpr hsrc) ?_
+        · intro x hx
+          have hx' := hp'.mem_iff.mp hx
+          exact (hall x (by
+            simp only [List.mem_append, List.mem_cons] at hx' ⊢
+            rcases hx' with (h | h) | h
+            · exact Or.inl (Or.inl h)
+            · exact Or.inr h
+            · exact Or.inl (Or.inr h))).2.1
+        · intro x hx
+          have hx' := hp'.mem_iff.mp hx
+          exact (hall x (by
+            simp only [List.mem_append, List.mem_cons] at hx' ⊢
+            rcases hx' with (h | h) | h
+            · exact Or.inl (Or.inl h)
+            · exact Or.inr h
+            · exact Or.inl (Or.inr h))).1
       have hc := hcnt g
       simp only [cntL_cons] at hc
       rw [cntT_node, cntT_node]
@@ -419,6 +476,10 @@ theorem insLoop_good (N : Nat)
       · simpa using hpw
       · exact hpt
       · intro d hd x hx; exact hcross d hd x (by simp [hx])
+      · intro a ha d hd
+        rcases List.mem_append.mp ha with ha | ha
+        · exact hbt a ha d hd
+        · simp at ha; subst ha; exact DJ_symm (hcross d hd _ (by simp))
       · intro x hx; apply hall
         simp only [List.mem_append, List.mem_cons, List.not_mem_nil, or_false] at hx ⊢
         rcases hx with ((h | h) | h) | h
@@ -452,6 +513,10 @@ theorem insLoop_good (N : Nat)
           rcases List.mem_append.mp hd with hd | hd
           · exact hcross d hd x (by simp [hx])
           · simp at hd; subst hd; exact hDJ x (hpc.1 x hx)
+        · intro a ha d hd
+          rcases List.mem_append.mp hd with hd | hd
+          · exact hbt a ha d hd
+          · simp at hd; subst hd; exact DJ_symm (hDJ a (DJ_symm (hp.2.2 a ha _ (by simp))))
         · intro x hx
           simp only [List.mem_append, List.mem_cons, List.not_mem_nil, or_false] at hx
           rcases hx with (h | (h | h)) | h
@@ -488,6 +553,7 @@ theorem ins_good_aux : ∀ (N : Nat) (t : T), size t < N → ∀ obj : IObj, Lam
     · simpa using hL.kids_pw
     · exact List.Pairwise.nil
     · intro d hd; cases hd
+    · intro a ha; cases ha
     · intro c hc
       have hc' : c ∈ kids := by simpa using hc
       exact ⟨hL.kids_lam c hc', hL.kids_sub c hc', hsz' c hc'⟩
@@ -571,5 +637,53 @@ theorem insertGroup_good (filterGroup rootCpuset rootNodeset : Nat) (numas : Lis
         subst h2
         exact ins_good root _ hL (cmpSets_included_sub hc)
       · cases h
+
+
+/-! ### a whole discovery: any sequence of insertions -/
+
+/-- insert the objects one after the other, as a discovery back end does; a refused object leaves the put-back tree;
+`none` = an object was lost (`stuck`) -/
+def insAll : T → List IObj → Option T
+  | t, [] => some t
+  | t, o :: os =>
+    match ins o t with
+    | .inserted t' => insAll t' os
+    | .merged t' _ => insAll t' os
+    | .failed t' => insAll t' os
+    | .stuck => none
+
+/-- **Any sequence of insertions keeps the tree laminar and loses nothing**: starting from a laminar tree, inserting any list
+of objects whose sets lie inside the root's yields a laminar tree with the same root set; no object of the tree is ever lost
+and every new gp_index appears at most as often as it was inserted -/
+theorem insAll_good : ∀ (objs : List IObj) (t : T), Lam t → (∀ o ∈ objs, sub o.key t.o.key) →
+    ∃ t', insAll t objs = some t' ∧ Lam t' ∧ t'.o.key = t.o.key ∧
+      ∀ g, cntT g t ≤ cntT g t' ∧ cntT g t' ≤ cntT g t + (objs.map (·.gp)).count g := by
+  intro objs
+  induction objs with
+  | nil => intro t hL _; exact ⟨t, rfl, hL, rfl, fun g => by simp⟩
+  | cons o os ih =>
+    intro t hL hs
+    have h := ins_good t o hL (hs o (by simp))
+    simp only [insAll]
+    have next : ∀ t1 : T, Lam t1 → t1.o.key = t.o.key → (∀ g, cntT g t ≤ cntT g t1 ∧ cntT g t1 ≤ cntT g t + (if o.gp = g then 1 else 0)) →
+        ∃ t', insAll t1 os = some t' ∧ Lam t' ∧ t'.o.key = t.o.key ∧
+          ∀ g, cntT g t ≤ cntT g t' ∧ cntT g t' ≤ cntT g t + ((o :: os).map (·.gp)).count g := by
+      intro t1 hL1 hk1 hc1
+      obtain ⟨t', e, hL', hk', hc'⟩ := ih t1 hL1 (fun x hx => hk1 ▸ hs x (by simp [hx]))
+      refine ⟨t', e, hL', hk'.trans hk1, fun g => ?_⟩
+      have a := hc1 g; have b := hc' g
+      simp only [List.map_cons, List.count_cons]
+      split at a <;> rename_i hg <;> simp [hg] <;> omega
+    cases hr : ins o t with
+    | stuck => rw [hr] at h; exact absurd h id
+    | inserted t1 =>
+      rw [hr] at h
+      exact next t1 h.1 h.2.1 (fun g => by have := h.2.2 g; by_cases hg : o.gp = g <;> simp [hg] at this ⊢ <;> omega)
+    | merged t1 m =>
+      rw [hr] at h
+      exact next t1 h.1 h.2.1 (fun g => by have := h.2.2 g; by_cases hg : o.gp = g <;> simp [hg] at this ⊢ <;> omega)
+    | failed t1 =>
+      rw [hr] at h
+      exact next t1 h.1 h.2.1 (fun g => by have := h.2.2 g; by_cases hg : o.gp = g <;> simp [hg] at this ⊢ <;> omega)
 
 end Hw.Topo.Ins
